@@ -1627,11 +1627,25 @@ dt_dtadd(struct dt_dt_s d, struct dt_dtdur_s dur)
 			if (d.typ == DT_SEXYTAI || (i_d = leaps_before(d), 0)) {
 				/* don't have to */
 				;
+			} else if (leaps_corr[i_d] == leaps_corr[i_orig]) {
+				/* no second inserted there, e.g. the very
+				 * first transition */
+				;
 			} else if (UNLIKELY(i_d < i_orig)) {
-				d.t.hms.s -= nltr;
-			} else if (UNLIKELY(i_d > i_orig)) {
+				/* we're back before a leap second that the
+				 * correction above accounted for */
+				d.t.hms.s += leaps_corr[i_orig] - leaps_corr[i_d];
+			} else if (UNLIKELY(i_d > i_orig && !d.t.hms.u24)) {
+				/* bang on the transition, that is the
+				 * inserted second */
 				d = orig;
 				d.t.hms.s += nltr;
+			} else if (UNLIKELY(i_d > i_orig)) {
+				/* we're past a leap second again that the
+				 * correction above accounted for */
+				d.t = dt_tadd_s(
+					d.t,
+					leaps_corr[i_orig] - leaps_corr[i_d], 0);
 			}
 		}
 	}
